@@ -176,6 +176,7 @@ impl SecondaryStorage {
                 engine.block_cache.clone(),
                 entry.rowset_id,
                 options.io_backend.clone(),
+                options.checksum_type,
             )
             .await?;
             changeset.push(EpochOp::AddRowSet((entry, disk_rowset)));
